@@ -206,6 +206,9 @@ func (x *Exec) callFn(st *State, fn *ssa.Function, bind []Val, args []Val, pos t
 	if strings.HasSuffix(pkgPath, "/slog") {
 		return Val{C: x.freshCells("slog", resT)}
 	}
+	if fi := x.W.ByFn[fn]; fi != nil && fi.C.Uninterp {
+		return x.callUninterp(st, fi, args, resT)
+	}
 	if fi := x.W.ByFn[fn]; fi != nil && !fi.C.Inline {
 		return x.callContract(st, fi, args, pos, resT)
 	}
@@ -1151,4 +1154,70 @@ func (x *Exec) applySplit(st *State, cond *Term) {
 func symbolicBase(off *Term) bool {
 	base, _ := linear(off)
 	return base != nil && base.Op != "var"
+}
+
+// callUninterp: a specification function declared uninterpreted. Its value is an uninterpreted function of
+// its scalar arguments and, for slices, of the backing array content and start; its ensures clauses are
+// axioms, instantiated (one level deep) at every application.
+func (x *Exec) callUninterp(st *State, fi *FuncInfo, args []Val, resT types.Type) Val {
+	var ua []*Term
+	rel := map[string]*Term{} // position parameter -> offset of the slice it is relative to
+	if len(fi.C.RelPos) > 1 {
+		for i, n := range fi.PNames {
+			if n == fi.C.RelPos[0] {
+				for _, pn := range fi.C.RelPos[1:] {
+					rel[pn] = args[i].C[1]
+				}
+			}
+		}
+	}
+	for i, a := range args {
+		if base, ok := rel[fi.PNames[i]]; ok {
+			ua = append(ua, BVAdd(base, a.C[0]))
+			continue
+		}
+		if len(rel) > 0 && fi.PNames[i] == fi.C.RelPos[0] {
+			if u, ok := fi.PTypes[i].Underlying().(*types.Slice); ok {
+				for _, srt := range cellsOf(u.Elem()) {
+					ua = append(ua, Select(x.heapOf(st, srt), a.C[0]))
+					break
+				}
+				continue
+			}
+		}
+		switch u := fi.PTypes[i].Underlying().(type) {
+		case *types.Slice:
+			seen := map[*Sort]bool{}
+			for _, srt := range cellsOf(u.Elem()) {
+				if !seen[srt] {
+					seen[srt] = true
+					ua = append(ua, Select(x.heapOf(st, srt), a.C[0]))
+				}
+			}
+			ua = append(ua, a.C[1])
+		default:
+			ua = append(ua, a.C...)
+		}
+	}
+	ss := cellsOf(resT)
+	res := Val{C: make([]*Term, len(ss))}
+	for k, srt := range ss {
+		res.C[k] = UF(fmt.Sprintf("U!%s!%d", sanitize(fi.Key), k), srt, ua...)
+	}
+	if x.unfold < 2 && x.quant == 0 {
+		key := fmt.Sprintf("%s#%d", fi.Key, res.C[0].id)
+		if !x.unfolded[key] {
+			if x.unfolded == nil {
+				x.unfolded = map[string]bool{}
+			}
+			x.unfolded[key] = true
+			x.unfold++
+			for _, g := range fi.Ens {
+				t := x.evalGen(g, st, x.genArgs(g, args, &res, nil, nil, st))
+				x.assume(True(), t.C[0])
+			}
+			x.unfold--
+		}
+	}
+	return res
 }
